@@ -37,6 +37,7 @@ TPopAllPush == /\ Ev.ev = "PopAllPush" /\ l' = l + 1
 
 TStep == \/ TReset
          \/ TPopAllPush
+         \/ Ev.ev = "Repush" /\ Step(Repush(A(1)))
          \/ TDrain
          \/ Ev.ev = "Push" /\ Step(Push(A(1)))
          \/ Ev.ev = "Pop" /\ Step(Pop)
